@@ -10,11 +10,31 @@ open Strax
 
 theorem sortIds_perm (l : List String) : (sortIds l).Perm l := List.mergeSort_perm _ _
 
-theorem superrunKey_inj {κ : Type} {H : List String → Bool → κ}
-    (hH : ∀ a b c d, H a b = H c d → a = c ∧ b = d) {name : String} {s1 s2 : List String} {c1 c2 : Bool}
-    (h : superrunKey H name s1 c1 = superrunKey H name s2 c2) : sortIds s1 = sortIds s2 ∧ c1 = c2 := by
+theorem superrunKey_inj {κ : Type} {H : List (String × Option (Int × Int)) → Bool → κ}
+    (hH : ∀ a b c d, H a b = H c d → a = c ∧ b = d) {name : String} {s1 s2 : List String} {l1 l2 : Sel} {c1 c2 : Bool}
+    (h : superrunKey H name s1 l1 c1 = superrunKey H name s2 l2 c2) : tagged l1 s1 = tagged l2 s2 ∧ c1 = c2 := by
   unfold superrunKey at h
   exact hH _ _ _ _ (Prod.mk.inj h).2
+
+/-- equal tagged item lists: same ids (as sorted lists) and the same selection for every listed run -/
+theorem tagged_eq {l1 l2 : Sel} {s1 s2 : List String} (h : tagged l1 s1 = tagged l2 s2) :
+    sortIds s1 = sortIds s2 ∧ ∀ r ∈ s1, l1.lookup r = l2.lookup r := by
+  unfold tagged at h
+  have h1 : sortIds s1 = sortIds s2 := by
+    have := congrArg (List.map Prod.fst) h
+    simpa [List.map_map, Function.comp_def] using this
+  refine ⟨h1, ?_⟩
+  intro r hr
+  have hr' : r ∈ sortIds s1 := (sortIds_perm s1).mem_iff.mpr hr
+  rw [← h1] at h
+  have := List.map_inj_left.mp h r hr'
+  exact (Prod.mk.inj this).2
+
+theorem tagged_congr {l1 l2 : Sel} {s : List String} (h : ∀ r ∈ s, l1.lookup r = l2.lookup r) : tagged l1 s = tagged l2 s := by
+  unfold tagged
+  apply List.map_congr_left
+  intro r hr
+  rw [h r ((sortIds_perm s).mem_iff.mp hr)]
 
 /-! ## 2. `define_run` -/
 
